@@ -213,6 +213,7 @@ type history struct {
 	parts    map[string][]porcupine.Operation // partition -> ops
 	desc     map[string][]string
 	bodies   map[string][]byte // md5 -> bytes of every body a client ever sent or the server assembled
+	withMeta map[string]bool   // md5 of bodies uploaded by a plain PUT, which carries x-amz-meta-sum
 	verOf    map[string]string // version id -> md5 of the put that got it
 	verKey   map[string]string // version id -> bucket/key
 	ids      []string
@@ -223,7 +224,7 @@ type history struct {
 type recycle struct{ call, ret int64 }
 
 func newHistory() *history {
-	return &history{parts: map[string][]porcupine.Operation{}, desc: map[string][]string{}, bodies: map[string][]byte{"d41d8cd98f00b204e9800998ecf8427e": {}},
+	return &history{parts: map[string][]porcupine.Operation{}, desc: map[string][]string{}, bodies: map[string][]byte{"d41d8cd98f00b204e9800998ecf8427e": {}}, withMeta: map[string]bool{},
 		verOf: map[string]string{}, verKey: map[string]string{}, delVer: map[string]bool{}}
 }
 
@@ -271,6 +272,7 @@ func (r *Run) checkReadIntegrity(resp *Resp, head bool, what string) (val string
 		if cl := resp.Header.Get("Content-Length"); cl != strconv.Itoa(len(body)) {
 			r.linFail("lin.integrity", what+" reports a Content-Length that does not match the body its ETag names", strconv.Itoa(len(body)), cl)
 		}
+		r.checkReadMeta(resp, et, what)
 		r.ok("lin.integrity")
 		return et
 	}
@@ -287,8 +289,27 @@ func (r *Run) checkReadIntegrity(resp *Resp, head bool, what string) (val string
 			r.linFail("lin.integrity", what+" ETag does not match the bytes served", sum, et)
 		}
 	}
+	r.checkReadMeta(resp, sum, what)
 	r.ok("lin.integrity")
 	return sum
+}
+
+// checkReadMeta: the metadata a read returns belongs to the upload whose
+// bytes it returns.
+func (r *Run) checkReadMeta(resp *Resp, sum, what string) {
+	if !r.hist.withMeta[sum] {
+		// assembled by a complete or written without the header: the server
+		// merges the metadata of the object it replaces, nothing to demand
+		return
+	}
+	ms := resp.Header.Get("X-Amz-Meta-Sum")
+	switch {
+	case ms == "":
+		r.linFail("lin.integrity", what+" returns the body of an upload without the metadata sent with it", "x-amz-meta-sum: "+sum, "no such header")
+	case ms != sum:
+		r.probe("body of one upload with the metadata of another observed")
+		r.linFail("lin.integrity", what+" returns the body of one upload with the metadata of another", "x-amz-meta-sum: "+sum, "x-amz-meta-sum: "+ms)
+	}
 }
 
 func (r *Run) altETagOK(et, sum string) bool {
@@ -316,8 +337,13 @@ func (r *Run) execLin(ci, oi int, op *Op) {
 		body := BodyBytes(r.Plan.Seed, op.Body)
 		sum := md5hex(body)
 		h.bodies[sum] = body
+		// every upload carries a metadata header naming its own body: a read
+		// must never pair the bytes of one upload with the metadata of another
+		preq := r.putRequest(op, target(op.B, op.Key, nil), body)
+		preq.Headers = append(preq.Headers, [2]string{"X-Amz-Meta-Sum", sum})
+		h.withMeta[sum] = true
 		call := h.tick()
-		resp := r.send(r.putRequest(op, target(op.B, op.Key, nil), body), op.Faults, r.frag(op))
+		resp := r.send(preq, op.Faults, r.frag(op))
 		ret := h.tick()
 		if !mustOK(resp, "PUT object", call) {
 			return
